@@ -53,6 +53,30 @@ def warmup() -> None:
 
 
 def execute(doc: dict) -> dict:
+    """Optionally followed by a twin: another instance with the SAME name,
+    its own encoder and destinations (nothing keyed by the name may leak)."""
+    name = packgen.scenario_name(doc)
+    res = _execute_one(doc, name)
+    twin = doc.get("twin")
+    if twin is not None and res["violation"] is None:
+        r2 = _execute_one(twin, name)
+        res["events"].append(["twin"])
+        res["events"].extend(r2["events"])
+        for key in ("faults", "probes"):
+            for k, v in r2[key].items():
+                res[key][k] = res[key].get(k, 0) + v
+        res["states"].extend(r2["states"])
+        res["ops"] += r2["ops"]
+        res["sim_time"] += r2["sim_time"]
+        res["nontrivial"] = res["nontrivial"] or r2["nontrivial"]
+        core.bump(res["faults"], "same_name_other_instance")
+        if r2["violation"] is not None:
+            res["violation"] = r2["violation"]
+            res["violation"]["in_twin"] = True
+    return res
+
+
+def _execute_one(doc: dict, name: str) -> dict:
     import numpy as np
     from moptipyapps.binpacking2d.encodings.ibl_encoding_1 import (
         ImprovedBottomLeftEncoding1)
@@ -61,7 +85,7 @@ def execute(doc: dict) -> dict:
     from moptipyapps.binpacking2d.packing_space import PackingSpace
 
     res = core.new_result()
-    inst = packgen.build_instance(doc["inst"], packgen.scenario_name(doc))
+    inst = packgen.build_instance(doc["inst"], name)
     W, H = int(inst.bin_width), int(inst.bin_height)
     items = [[int(v) for v in row] for row in inst]
     n_items = int(inst.n_items)
